@@ -421,3 +421,227 @@ func ruleL38(p *Prog, r *Report) {
 	}
 	r.Floor(R, "storables handed back by Set / Remove", 4, n)
 }
+
+// L39 a position read from an index map is read with its presence flag.
+//
+// `m[k]` on a map with integer values answers 0 for an absent key - a valid position. Where such a value is handed on
+// (written to a register as a reference, used as an index), the lookup must be the comma-ok form with the flag
+// tested, or be dominated by the found edge of such a lookup of the same key. A global "the table is not empty" test
+// is not that: an inlined child whose type occurs once would be written as a reference to entry 0.
+func ruleL39(p *Prog, r *Report) {
+	const R = "L39"
+	n := 0
+	for _, f := range p.Funcs {
+		if p.IsTestFile(f.Pos()) || len(f.Blocks) == 0 {
+			continue
+		}
+		eachInstr(f, func(in ssa.Instruction) {
+			lk, ok := in.(*ssa.Lookup)
+			if !ok {
+				return
+			}
+			mt, ok := lk.X.Type().Underlying().(*types.Map)
+			if !ok {
+				return
+			}
+			bt, ok := mt.Elem().Underlying().(*types.Basic)
+			if !ok || bt.Info()&types.IsInteger == 0 {
+				return
+			}
+			n++
+			cons := "position-with-presence:" + p.Name(f)
+			if lk.CommaOk {
+				// the flag must be looked at
+				used := false
+				for _, ref := range *lk.Referrers() {
+					if ex, ok := ref.(*ssa.Extract); ok && ex.Index == 1 && ex.Referrers() != nil && len(*ex.Referrers()) > 0 {
+						used = true
+					}
+				}
+				r.Decide(used, R, cons, p.InstrPos(in), "the presence flag of the lookup is used", "the presence flag of a lookup in an index map is discarded: an absent key reads as position 0")
+				return
+			}
+			// plain form: fine if the value is only compared / counted, or a found edge of the same lookup dominates
+			handedOn := false
+			for _, ref := range *lk.Referrers() {
+				switch ref.(type) {
+				case *ssa.BinOp, *ssa.MapUpdate, *ssa.If:
+				default:
+					handedOn = true
+				}
+			}
+			if !handedOn {
+				r.Ok(R, cons, p.InstrPos(in), "the value is only compared or written back (a counter)")
+				return
+			}
+			guarded := false
+			for _, b := range f.Blocks {
+				ifi, ok := b.Instrs[len(b.Instrs)-1].(*ssa.If)
+				if !ok {
+					continue
+				}
+				ex, ok := canon(ifi.Cond).(*ssa.Extract)
+				if !ok || ex.Index != 1 {
+					continue
+				}
+				l2, ok := ex.Tuple.(*ssa.Lookup)
+				if !ok || !l2.CommaOk || !sameValue(l2.X, lk.X) || !sameValue(l2.Index, lk.Index) {
+					continue
+				}
+				if edgeDominates(b, 0, in.Block()) {
+					guarded = true
+				}
+			}
+			r.Decide(guarded, R, cons, p.InstrPos(in), "a found edge of a comma-ok lookup of the same key dominates", "a position is read from an index map without its presence flag and handed on: for an absent key the map answers 0, which is a valid position - the entry is written as a reference to element 0 (an inlined child comes back with another child's type)")
+		})
+	}
+	r.Floor(R, "lookups in integer-valued maps", 3, n)
+}
+
+// L40 the "there was a value under this key" answer of an element-level Set is looked at.
+//
+// element.Set / MapSlab.Set answer (key, existing value, ...): a non-nil existing value means the key was present - no
+// new entry, count unchanged, and in a batch build a duplicate key. Obligation per such call whose results are
+// received: the existing-value result is used (tested for nil, returned or handed on). A caller that discards it and
+// goes on to count the key counts an overwrite as an insert.
+func ruleL40(p *Prog, r *Report) {
+	const R = "L40"
+	n := 0
+	for _, f := range p.Funcs {
+		if p.IsTestFile(f.Pos()) || len(f.Blocks) == 0 {
+			continue
+		}
+		eachInstr(f, func(in ssa.Instruction) {
+			c, ok := in.(*ssa.Call)
+			if !ok || calleeName(c) != "Set" {
+				return
+			}
+			tup, ok := c.Type().(*types.Tuple)
+			if !ok {
+				return
+			}
+			idx := -1
+			for i := 0; i < tup.Len(); i++ {
+				if typeName(tup.At(i).Type()) == "MapValue" {
+					idx = i
+				}
+			}
+			if idx < 0 {
+				return
+			}
+			n++
+			used := false
+			for _, ref := range *c.Referrers() {
+				if ex, ok := ref.(*ssa.Extract); ok && ex.Index == idx && ex.Referrers() != nil && len(*ex.Referrers()) > 0 {
+					used = true
+				}
+			}
+			r.Decide(used, R, "existing-value-consulted:"+p.Name(f), p.InstrPos(in), "the existing-value answer of the element-level Set is used", "the existing-value answer of an element-level Set is discarded: an overwrite is indistinguishable from an insert here, so a key provided twice is counted twice (Count() exceeds the number of entries) and its first value is dropped without being handed back")
+		})
+	}
+	r.Floor(R, "element-level Set calls", 8, n)
+}
+
+// S19 an empty register is an absent register.
+//
+// LedgerBaseStorage.Remove clears a register by writing a nil value; what a ledger hands back for it later is up to
+// the ledger - nil, or an empty slice (a defensive copy, a deserialised empty payload). Obligation: the found flag
+// the ledger-backed Retrieve returns next to the bytes is decided by their length, not by a comparison with nil;
+// otherwise a removed register reads as present-but-undecodable after the cache is dropped.
+func ruleS19(p *Prog, r *Report) {
+	const R = "S19"
+	n := 0
+	for _, top := range p.TopFuncs() {
+		if p.IsTestFile(top.Pos()) || top.Name() != "Retrieve" || len(top.Params) == 0 {
+			continue
+		}
+		// a Retrieve that reads through the Ledger interface
+		var get *ssa.Call
+		eachInstr(top, func(in ssa.Instruction) {
+			if c, ok := in.(*ssa.Call); ok && c.Call.IsInvoke() && c.Call.Method.Name() == "GetValue" && typeName(c.Call.Value.Type()) == "Ledger" {
+				get = c
+			}
+		})
+		if get == nil {
+			continue
+		}
+		for _, ret := range returnsOf(top) {
+			if cl, _ := classifyReturn(ret); cl == retError || len(ret.Results) < 2 {
+				continue
+			}
+			n++
+			fv := canon(ret.Results[1])
+			okLen := sliceContains(fv, func(x ssa.Value) bool {
+				_, isLen := isLenOf(x)
+				return isLen
+			}, 0, map[ssa.Value]bool{})
+			nilCmp := sliceContains(fv, func(x ssa.Value) bool {
+				bo, ok := x.(*ssa.BinOp)
+				return ok && (isNilConst(bo.X) || isNilConst(bo.Y))
+			}, 0, map[ssa.Value]bool{})
+			r.Decide(okLen && !nilCmp, R, "empty-register-is-absent:"+p.Name(top), p.InstrPos(ret), "the found flag is decided by the length of the value read", "the found flag of the ledger-backed Retrieve is not decided by the length of the value (a nil comparison, or something else): a register cleared by Remove that the ledger hands back as an empty slice is reported present, and the slab fails to decode after the read cache was dropped")
+		}
+	}
+	r.Floor(R, "ledger-backed Retrieve returns", 1, n)
+}
+
+// P18 decode scope: no division or remainder by a value that can be zero.
+//
+// An integer division by zero panics. Obligation per `/` or `%` in the decode scope whose divisor is not a non-zero
+// constant: the operation is dominated by the non-zero edge of a comparison of the divisor with zero (`d != 0`,
+// `d > 0`, `d == 0` taken on its false edge, `d >= 1`).
+func ruleP18(p *Prog, r *Report) {
+	const R = "P18"
+	n, nVar := 0, 0
+	scope, _ := p.decodeScope()
+	for _, top := range sortedFuncs(p, scope) {
+		eachInstrDeep(top, func(fn *ssa.Function, in ssa.Instruction) {
+			bo, ok := in.(*ssa.BinOp)
+			if !ok || (bo.Op != token.QUO && bo.Op != token.REM) {
+				return
+			}
+			if bt, ok := bo.Type().Underlying().(*types.Basic); !ok || bt.Info()&types.IsInteger == 0 {
+				return
+			}
+			n++
+			if k, isK := cInt(bo.Y); isK {
+				if k == 0 {
+					r.Bad(R, "divisor-nonzero:"+p.Name(fn), p.InstrPos(in), "division by the constant zero")
+				}
+				return
+			}
+			nVar++
+			d := bo.Y
+			guarded := false
+			for _, b := range fn.Blocks {
+				ifi, ok := b.Instrs[len(b.Instrs)-1].(*ssa.If)
+				if !ok {
+					continue
+				}
+				c, ok := ifi.Cond.(*ssa.BinOp)
+				if !ok {
+					continue
+				}
+				isD := func(v ssa.Value) bool { return v == d || sameValue(canonConv(v), canonConv(d)) }
+				z := func(v ssa.Value) (int64, bool) { return cInt(v) }
+				var nonZeroEdge = -1
+				if isD(c.X) {
+					if k, ok := z(c.Y); ok {
+						switch {
+						case c.Op == token.NEQ && k == 0, c.Op == token.GTR && k >= 0, c.Op == token.GEQ && k >= 1:
+							nonZeroEdge = 0
+						case c.Op == token.EQL && k == 0, c.Op == token.LEQ && k >= 0, c.Op == token.LSS && k >= 1:
+							nonZeroEdge = 1
+						}
+					}
+				}
+				if nonZeroEdge >= 0 && edgeDominates(b, nonZeroEdge, in.Block()) {
+					guarded = true
+				}
+			}
+			r.Decide(guarded, R, "divisor-nonzero:"+p.Name(fn), p.InstrPos(in), "the divisor was found non-zero on the way here", "a value decoded from the register (or derived from it) is used as a divisor without a dominating non-zero test: a register that carries 0 there makes the decoder panic with an integer divide by zero")
+		})
+	}
+	r.Decide(true, R, "divisions-examined", "-", "integer divisions / remainders in the decode scope: "+itoa(n)+", of which with a non-constant divisor: "+itoa(nVar), "")
+	r.Floor(R, "integer divisions in the decode scope", 1, n)
+}
